@@ -68,6 +68,9 @@ PROP = dict(
               "Shangrla.RiskLimit.wrong_outcome_polling_risk_limit", "Shangrla.RiskLimit.wrong_outcome_comparison_risk_limit",
               "Shangrla.RiskLimit.riskLimit_le_max",
               "Shangrla.RiskLimit.audit_polling_risk_limit", "Shangrla.RiskLimit.audit_comparison_risk_limit",
+              # contests audited by different methods (polling / comparison, own style flag) in one audit
+              "Shangrla.RiskLimit.polling_cards_risk_limit", "Shangrla.RiskLimit.wrong_outcome_risk_limit",
+              "Shangrla.RiskLimit.audit_outcome_risk_limit",
               "Shangrla.RiskLimit.pair_name_clash", "Shangrla.RiskLimit.example_k2_wrong", "Shangrla.RiskLimit.example_k2_hall",
               "Shangrla.RiskLimit.example_k2_hall_comparison",
               "Shangrla.RiskLimit.example_outcome_polling_exact", "Shangrla.RiskLimit.example_outcome_comparison_exact"],
